@@ -13,7 +13,9 @@ EXPLANATION = (
     "never crossed; (C11.3) MergingCursor::{next,prev}: on a direction switch every child is advanced, then the comparator "
     "is flipped, then the heap is rebuilt; otherwise only the root is advanced and percolated down; every seek positions "
     "every child, sets the comparator and heapifies; (C11.4) PruningCursor's three movement methods compare the entry "
-    "timestamp with the snapshot timestamp and test tombstones.  SIBLINGS/GUARDED/ORDER over resolved MIR.")
+    "timestamp with the snapshot timestamp and test tombstones, and the two forward scans (seek, next) accept an entry only "
+    "after screening it against skip_key, which the tombstone arm of the same loop sets; (C11.5) BoundsCursor next/prev are "
+    "mirror images; (C11.6) ConcatenatingCursor leaves an exhausted child in every movement.  SIBLINGS/GUARDED/ORDER over resolved MIR.")
 NOT_DECIDED = ("the equivalences themselves (sorted union, concatenation, restriction to bounds, newest <= t) for all inputs and "
                "call programs")
 ASSUMPTIONS = []
